@@ -1,6 +1,6 @@
 // C16: the CLI exits 0 and announces success iff the package was fully written into <out>/<name>; flags are
 // honoured; an unusable name is rejected before anything is created; nothing that existed is ever modified.
-// Configurations (flags x input class x pre-state of the output location) are enumerated against the real binary,
+// Configurations (flags x input class x pre-state (and five further spellings of -out: relative, ./, with .., trailing slash, as a separate argument) of the output location) are enumerated against the real binary,
 // and for successful configurations an error is injected into the k-th mkdirat/openat/write/newfstatat for every k.
 package main
 
@@ -51,10 +51,11 @@ type config struct {
 	Name, Input, Pre          string
 	Debug, Verbose, Help, Ver bool
 	Fault                     string // "" or "<syscall>:<errno>:<k>"
+	OutForm                   string // how -out is spelled: "" (absolute), "rel", "dot", "dotdot", "slash", "sep" (-out D)
 }
 
 func (c config) String() string {
-	return fmt.Sprintf("name=%q input=%s pre=%s debug=%v verbose=%v help=%v version=%v fault=%s", c.Name, c.Input, c.Pre, c.Debug, c.Verbose, c.Help, c.Ver, c.Fault)
+	return fmt.Sprintf("name=%q input=%s pre=%s debug=%v verbose=%v help=%v version=%v fault=%s out=%s", c.Name, c.Input, c.Pre, c.Debug, c.Verbose, c.Help, c.Ver, c.Fault, c.OutForm)
 }
 
 type entry struct {
@@ -108,7 +109,21 @@ func setup(dir string, c config) (args []string, pkgDir string) {
 	if c.Pre == "no-out-flag" {
 		outDir = dir
 	} else {
-		args = append(args, "-out="+outDir)
+		// the same directory, spelled in the ways a path may be spelled (the tool runs with dir as working directory)
+		switch c.OutForm {
+		case "rel":
+			args = append(args, "-out=OUT")
+		case "dot":
+			args = append(args, "-out=./OUT")
+		case "dotdot":
+			args = append(args, "-out=OUT/../OUT")
+		case "slash":
+			args = append(args, "-out="+outDir+"/")
+		case "sep":
+			args = append(args, "-out", outDir)
+		default:
+			args = append(args, "-out="+outDir)
+		}
 	}
 	pkgDir = filepath.Join(outDir, name)
 	switch c.Pre {
@@ -424,7 +439,7 @@ func main() {
 			os.RemoveAll(filepath.Dir(bin))
 		}
 		os.RemoveAll(tmp)
-		r.Set("rule", "configurations: name (9 names in the full product, 20 further identifier / non-identifier names in a reduced one; go/token decides what an identifier is) x input class x pre-state of the output location x flag subsets (complete product in thorough; in quick every pair of dimensions is covered); faults: for every successful configuration an error (ENOSPC, EACCES, EIO) injected into the k-th mkdirat / openat / write / newfstatat for every k the fault-free run performs (strace inject); non-trivial = every configuration (distinct by configuration)")
+		r.Set("rule", "configurations: name (9 names in the full product, 20 further identifier / non-identifier names in a reduced one; go/token decides what an identifier is) x input class x pre-state (and five further spellings of -out: relative, ./, with .., trailing slash, as a separate argument) of the output location x flag subsets (complete product in thorough; in quick every pair of dimensions is covered); faults: for every successful configuration an error (ENOSPC, EACCES, EIO) injected into the k-th mkdirat / openat / write / newfstatat for every k the fault-free run performs (strace inject); non-trivial = every configuration (distinct by configuration)")
 		r.Set("evaluations", r.Get("runs"))
 		r.Finish()
 	}
@@ -464,6 +479,19 @@ func main() {
 						}
 					}
 					do(c)
+				}
+			}
+		}
+	}
+	// the spellings of -out, for every input class and pre-state (names: the grammar's own and an override)
+	for _, form := range []string{"rel", "dot", "dotdot", "slash", "sep"} {
+		for _, name := range []string{"", "pk"} {
+			for _, input := range inputOrder {
+				for _, pre := range preStates {
+					if pre == "no-out-flag" {
+						continue
+					}
+					do(config{Name: name, Input: input, Pre: pre, OutForm: form})
 				}
 			}
 		}
